@@ -5,7 +5,7 @@
    in the protocol theorems; the external install(1) is the oracle [w_ans] + [ext_effect]. *)
 From Coq Require Import List NArith ZArith Bool String.
 Import ListNotations.
-From Verif Require Import Base.Val C32.Model_C32 C32.Spec_C32 C32.Proofs_C32.
+From Verif Require Import Base.Val C32.Model_C32 C32.Spec_C32 C32.Proofs_C32 C32.Exit_C32 C32.Lift_C32.
 Local Open Scope N_scope.
 
 (* one request -> exactly one line on the wire, or nothing and the daemon loop is left *)
@@ -152,3 +152,68 @@ Theorem channel_in_sync_refuted :
   snd (fst (run_daemon ex_cfg (stream [r]) ex_world)) = SUnhandled.
 Proof. exact channel_in_sync_refuted_proof. Qed.
 Print Assumptions channel_in_sync_refuted.
+
+(* ------------------------------------------------------------------ extensions *)
+(* TRUTHFUL ON DISK (install family, internal copy path): a reply with status "0" means that every
+   regular file named in the request is in the image at <dest>/<name> with the source's content -
+   through option parsing, makedirs and the Doins/Dodoc directory handling *)
+Theorem install_reply_truthful_on_disk : forall ed (ext_effect : list str -> image -> image) has_r de dflt
+    (cwd_ok : str -> bool) l1 l2 l3 l4 l5 tail w options d,
+  ~ In NL l1 -> ~ In NL l2 -> ~ In NL l3 -> ~ In NL l4 -> ~ In NL l5 ->
+  shlex_split (strip l4) = Some options -> cwd_ok (strip l2) = true ->
+  let o := parse_options options {| o_dest := [47]; o_ins := None; o_dir := None; o_unknown := [] |} in
+  (forall ws, install_mode (o_ins o) dflt <> IFallback ws) ->
+  (forall ws, install_mode (o_dir o) [] <> IFallback ws) ->
+  let r := ipc_call world (body_install ed ext_effect has_r de dflt) cwd_ok (framed l1 l2 l3 l4 l5 tail) w in
+  wire_of (fst (fst r)) = d ++ [NL] -> says_success d ->
+  forall t cid, In t (snd (fst (split_targets has_r (split_args l5)))) -> assoc t (w_src w) = Some (SFile cid) ->
+                exists m, img_get (comps (pjoin (lstrip_sl (o_dest o)) t)) (w_img (snd r)) = Some (NFile cid m).
+Proof. exact install_reply_truthful_on_disk_proof. Qed.
+Print Assumptions install_reply_truthful_on_disk.
+
+(* the body-level form: body returned None => files on disk *)
+Theorem install_truthful_internal : forall ed (ext_effect : list str -> image -> image) has_r de dflt options args w w',
+  let o := parse_options options {| o_dest := [47]; o_ins := None; o_dir := None; o_unknown := [] |} in
+  (forall ws, install_mode (o_ins o) dflt <> IFallback ws) ->
+  (forall ws, install_mode (o_dir o) [] <> IFallback ws) ->
+  body_install ed ext_effect has_r de dflt options args w = (HNone, w') ->
+  forall t cid, In t (snd (fst (split_targets has_r args))) -> assoc t (w_src w) = Some (SFile cid) ->
+                exists m, img_get (comps (pjoin (lstrip_sl (o_dest o)) t)) (w_img w') = Some (NFile cid m).
+Proof. exact install_truthful_internal_proof. Qed.
+Print Assumptions install_truthful_internal.
+
+(* DODIR: without injected faults the directory loop succeeds exactly when every requested directory,
+   with all its parents, exists afterwards *)
+Theorem dodir_truthful : forall ed rels dm w r w',
+  w_faults w = [] -> (forall ws, dm <> IFallback ws) ->
+  install_dirs_int ed rels dm w = (r, w') ->
+  (r = None <-> forall d, In d rels -> dir_path (w_img w') (comps d)).
+Proof. exact dodir_truthful_proof. Qed.
+Print Assumptions dodir_truthful.
+
+(* ... and through Dodir's option/argument handling *)
+Theorem dodir_body_truthful : forall ed (ext_effect : list str -> image -> image) options args w res w',
+  let o := parse_options options {| o_dest := [47]; o_ins := None; o_dir := None; o_unknown := [] |} in
+  o_unknown o = [] -> args <> [] -> w_faults w = [] ->
+  install_mode (o_ins o) [] <> IBad ->
+  install_mode (o_dir o) (E "-m0755") <> IBad ->
+  (forall ws, install_mode (o_dir o) (E "-m0755") <> IFallback ws) ->
+  body_dodir ed ext_effect options args w = (res, w') ->
+  (res = HNone <->
+   forall d, In d args -> dir_path (w_img w') (comps (pjoin (lstrip_sl (o_dest o)) (lstrip_sl d)))).
+Proof. exact dodir_body_truthful_proof. Qed.
+Print Assumptions dodir_body_truthful.
+
+(* what the caller of a nonfatal helper sees in $?: the code modulo 256 ... *)
+Theorem caller_sees_code_mod_256 : forall code,
+  exit_status (dec_Z code) = dec_N (Z.to_N (code mod 256)).
+Proof. exact caller_sees_code_mod_256_proof. Qed.
+Print Assumptions caller_sees_code_mod_256.
+
+(* ... so exactly the non-zero multiples of 256 are taken for success (finding status-multiple-of-256) *)
+Theorem status_multiple_of_256 : forall cmd code msg,
+  code <> 0%Z ->
+  let '(st, _, died) := bash_ipc_exit cmd true (bash_fields (encode_err code msg)) in
+  died = false /\ st = dec_Z code /\ (exit_status st = [48] <-> (code mod 256 = 0)%Z).
+Proof. exact status_multiple_of_256_proof. Qed.
+Print Assumptions status_multiple_of_256.
